@@ -234,13 +234,19 @@ def run_check(pid: str, tier: str, seed: int) -> int:
     extra = []
     if pid in ("C05", "C10"):
         extra += grammar_mod.check(REPO, os.path.join(leanbuild.LEAN_SRC, "Contracts", "Layout.lean"))
-    if pid in ("C10", "C14", "C03", "C11", "C07", "C06"):
-        g = glue_mod.check(REPO, os.path.join(VERIF, "vlib", "glue.json"))
-        if pid in ("C07", "C06"):
-            g = [x for x in g if "molfile_reader" in x["obligation"]]
-        elif pid in ("C03", "C11"):
-            g = [x for x in g if "parser" in x["obligation"] or "tucan" in x["obligation"]]
-        extra += g
+    g_all = glue_mod.check(REPO, os.path.join(VERIF, "vlib", "glue.json"))
+    needed_files = {ex.modules[k[0]].relpath for k in spec["functions"] if k[0] in ex.modules} | {"tucan/__init__.py", "tucan/graph_attributes.py", "tucan/element_attributes.py"}
+    if any(f.startswith("tucan/io/") for f in needed_files):
+        needed_files |= {"tucan/io/__init__.py", "tucan/io/exception.py"}
+    for x in g_all:
+        name = x["obligation"][len("glue."):]
+        if name.startswith("module:"):
+            if name[len("module:"):] in needed_files:
+                extra.append(x)
+        elif pid in ("C10", "C14", "C03", "C11") and ("parser" in name):
+            extra.append(x)
+        elif pid in ("C07", "C06", "C14") and "molfile_reader" in name:
+            extra.append(x)
     for x in extra:
         obligations.append(x["obligation"])
         if x["ok"]:
